@@ -125,8 +125,21 @@ def _task(args):
         return {"error": traceback.format_exc()}
 
 
-def _confirm(mod, case):
-    """re-execute through the plain path; must fail again."""
+def purge_gcmpy():
+    """forget every gcmpy module so that the next import re-executes them: module / class level state the
+    library may keep (caches, counters) starts from scratch, as in a fresh process."""
+    for m in [m for m in sys.modules if m == "gcmpy" or m.startswith("gcmpy.")]:
+        del sys.modules[m]
+
+
+def run_isolated(mod, case, prefix=()):
+    """execute `case` (after the cases in `prefix`) against a freshly imported library."""
+    purge_gcmpy()
+    for c in prefix:
+        try:
+            mod.check(json.loads(c))
+        except Violation:
+            pass
     try:
         mod.check(json.loads(canon(case)))
     except Violation as v:
@@ -134,10 +147,42 @@ def _confirm(mod, case):
     return None
 
 
+def _finalize(mod, case, msg, trace):
+    """Turn a failing case into a reproducible failure record.  First try the case alone against a freshly
+    imported library; if it only fails after earlier cases (the library leaks state between calls), keep a
+    greedily minimised prefix of earlier cases in the replay.  Returns (failure | None, error | None)."""
+    conf = run_isolated(mod, case)
+    if conf is not None:
+        return {"case": case, "kind": conf[0], "msg": conf[1]}, None
+    prefix = list(trace)
+    conf = run_isolated(mod, case, prefix)
+    if conf is None:
+        return None, f"non-reproducible violation: {msg}\n{canon(case)}"
+    budget = 80
+    chunk = max(1, len(prefix) // 2)
+    while chunk >= 1 and budget > 0 and prefix:
+        i = 0
+        while i < len(prefix) and budget > 0:
+            cand = prefix[:i] + prefix[i + chunk:]
+            budget -= 1
+            c2 = run_isolated(mod, case, cand)
+            if c2 is not None:
+                prefix, conf = cand, c2
+            else:
+                i += chunk
+        if chunk == 1:
+            break
+        chunk //= 2
+    note = (f" [fails only after {len(prefix)} earlier case(s) in the same process: the code under test keeps state "
+            f"across calls; the replay file carries them as 'prefix']")
+    return {"case": case, "kind": conf[0], "msg": conf[1] + note, "prefix": [json.loads(c) for c in prefix]}, None
+
+
 def _run_enum(modname, cases, collect):
     mod = importlib.import_module(modname)
     acc = Acc()
     failure = None
+    trace = []
     for case in cases:
         case = json.loads(canon(case))
         try:
@@ -148,11 +193,11 @@ def _run_enum(modname, cases, collect):
                 b = acc.buckets.setdefault(v.kind, {"count": 0, "case": case, "msg": str(v)})
                 b["count"] += 1
                 continue
-            conf = _confirm(mod, case)
-            if conf is None:
-                return {"error": f"non-reproducible violation on enumerated case: {v}\n{canon(case)}"}
-            failure = {"case": case, "kind": conf[0], "msg": conf[1]}
+            failure, err = _finalize(mod, case, str(v), trace)
+            if err:
+                return {"error": err}
             break
+        trace.append(canon(case))
         acc.record(case, info)
     r = acc.out()
     r["failure"] = failure
@@ -166,6 +211,7 @@ def _run_hyp(modname, tier, seed, shard, n, do_shrink, collect):
     import hypothesis.errors as herr
     acc = Acc()
     holder = {}
+    trace = []
 
     def body(case):
         case = json.loads(canon(case))
@@ -179,8 +225,10 @@ def _run_hyp(modname, tier, seed, shard, n, do_shrink, collect):
                 if len(canon(case)) < len(canon(b["case"])):
                     b["case"], b["msg"] = case, str(v)
                 return
-            holder["fail"] = (case, v.kind, str(v))
+            holder["fail"] = (case, v.kind, str(v), len(trace))
+            trace.append(canon(case))
             raise
+        trace.append(canon(case))
         acc.record(case, info)
 
     phases = [Phase.explicit, Phase.generate] + ([Phase.shrink] if do_shrink else [])
@@ -192,23 +240,16 @@ def _run_hyp(modname, tier, seed, shard, n, do_shrink, collect):
     failure = None
     try:
         test()
-    except Violation:
-        case, kind, msg = holder["fail"]
-        conf = _confirm(mod, case)
-        if conf is None:
-            return {"error": f"non-reproducible violation: {msg}\n{canon(case)}"}
-        failure = {"case": case, "kind": conf[0], "msg": conf[1]}
-    except herr.Flaky:
-        # the outcome changed between executions of one case.  If the library keeps state across calls
-        # (e.g. a cache) that is itself how a violation shows; accept it only if the last failing case
-        # fails again through the plain path, otherwise it is a harness error.
+    except (Violation, herr.Flaky) as exc:
+        # Flaky: the outcome changed between executions of one case -- if the library keeps state across calls
+        # (e.g. a cache) that is itself how a violation shows.  Either way the last failing case must be made
+        # reproducible against a freshly imported library, else it is a harness error, never a VIOLATION.
         if "fail" not in holder:
             return {"error": "flaky: " + traceback.format_exc()}
-        case, kind, msg = holder["fail"]
-        conf = _confirm(mod, case)
-        if conf is None:
-            return {"error": f"flaky and non-reproducible: {msg}\n{canon(case)}\n" + traceback.format_exc()}
-        failure = {"case": case, "kind": conf[0], "msg": conf[1] + " [outcome varied between executions of the same case: the code under test keeps state across calls]"}
+        case, kind, msg, pos = holder["fail"]
+        failure, err = _finalize(mod, case, msg, trace[:pos])
+        if err:
+            return {"error": err + ("\n" + traceback.format_exc() if isinstance(exc, herr.Flaky) else "")}
     r = acc.out()
     r["failure"] = failure
     return r
@@ -285,6 +326,11 @@ def main(argv=None):
         data = json.load(open(a.replay))
         case = data["case"] if isinstance(data, dict) and "case" in data and "property" in data else data
         try:
+            for c in (data.get("prefix") or []) if isinstance(data, dict) else []:
+                try:
+                    mod.check(c)
+                except Violation:
+                    pass
             info = mod.check(case)
         except Violation as v:
             print(f"replay: {v}")
@@ -311,10 +357,13 @@ def main(argv=None):
         for fn in sorted(os.listdir(cdir)):
             if fn.endswith(".json"):
                 d = json.load(open(os.path.join(cdir, fn)))
-                corpus.append(d["case"] if isinstance(d, dict) and "case" in d and "property" in d else d)
-    for i in range(0, len(corpus), 4):
-        tasks.append(("enum", modname, corpus[i:i + 4], a.collect))
-    ncorpus = len(corpus)
+                if isinstance(d, dict) and "case" in d and "property" in d:
+                    corpus.append(list(d.get("prefix") or []) + [d["case"]])
+                else:
+                    corpus.append([d])
+    for group in corpus:
+        tasks.append(("enum", modname, group, a.collect))
+    ncorpus = sum(len(g) for g in corpus)
     if hasattr(mod, "enumerated"):
         cases = list(mod.enumerated(tier, seed))
         if cases:
@@ -414,8 +463,10 @@ def main(argv=None):
         for kind, f in sorted(bykind.items()):
             path = os.path.join(rdir, chash(f["case"]) + ".json")
             with open(path, "w") as fh:
-                json.dump({"property": pid, "kind": kind, "message": f["msg"], "seed": seed, "tier": tier,
-                           "case": f["case"]}, fh, indent=1, sort_keys=True)
+                rec = {"property": pid, "kind": kind, "message": f["msg"], "seed": seed, "tier": tier, "case": f["case"]}
+                if f.get("prefix"):
+                    rec["prefix"] = f["prefix"]
+                json.dump(rec, fh, indent=1, sort_keys=True)
                 fh.write("\n")
             print(f"  {f['msg'][:500]}")
             print(f"VIOLATION property={pid} replay={path}")
